@@ -216,6 +216,61 @@ static void run_detector(Json& js, vh::Rng& rng, long budget, bool all_offsets) 
     }
 }
 
+// several preambles in one stream (growth beyond C18, validated by Trace_DetectorSeq against DetectorSeq.tla): per frame,
+// whether something was reported, at which offset, and which stream samples (numbered from 1, 0 = initial zeros of the
+// delay line) the returned array holds - found by exact value comparison (noise samples are unique)
+static void run_seq(Json& js, vh::Rng& rng, long budget) {
+    for (long t = 0; t < budget; ++t) {
+        const int Lp = (int)rng.range(0, 2) == 0 ? 31 : (int)rng.range(16, 80);
+        const arr_cmplx h = zadoff_chu(1, Lp | 1);
+        const int L = h.size();
+        const double thr = 0.8;
+        PreambleDetector det(h, thr);
+        const int F = det.frame_len();
+        const int nframes = (int)rng.range(3, 6);
+        arr_cmplx in(nframes * F);
+        for (int i = 0; i < in.size(); ++i) {
+            in[i] = cmplx_t(0.01 * rng.gauss(), 0.01 * rng.gauss());
+        }
+        // preambles: the second one ends between L and L + F samples after the first (same frame, or early in the next)
+        std::vector<int> ends;
+        int e = (int)rng.range(L - 1, F + L);
+        while (e < in.size()) {
+            ends.push_back(e);
+            e += L + (int)rng.range(0, F);
+        }
+        for (int en : ends) {
+            for (int i = 0; i < L; ++i) {
+                in[en - L + 1 + i] = in[en - L + 1 + i] + h[i];
+            }
+        }
+        js.begin("SeqReset").num("Lp", L).num("F", F).num("nframes", nframes).arr("ends", ends).end();
+        for (int f = 0; f < nframes; ++f) {
+            std::optional<PreambleDetector::Result> r;
+            const char* o = vh::outcome([&] { r = det.process(arr_cmplx(in.slice(f * F, (f + 1) * F))); });
+            std::vector<long> idx;
+            long off = -1;
+            bool unique = true;
+            if (r.has_value()) {
+                off = r->offset;
+                for (int i = 0; i < r->preamble.size(); ++i) {
+                    const cmplx_t v = r->preamble[i];
+                    long found = (v.re == 0 && v.im == 0) ? 0 : -1;
+                    for (int s = 0; s < in.size() && found < 0; ++s) {
+                        if (in[s] == v) {
+                            found = s + 1;
+                        }
+                    }
+                    unique = unique && found >= 0;
+                    idx.push_back(found);
+                }
+            }
+            js.begin("SeqFrame").num("k", f + 1).str("o", o).boolean("det", r.has_value()).num("off", off).arr("idx", idx)
+              .boolean("found", unique).end();
+        }
+    }
+}
+
 int main(int argc, char** argv) {
     const std::string mode = vh::arg(argc, argv, "--mode", "delay");
     const long seed = std::atol(vh::arg(argc, argv, "--seed", "1"));
@@ -228,6 +283,8 @@ int main(int argc, char** argv) {
         run_delay(js, rng, budget, false);
     } else if (mode == "delay-all") {
         run_delay(js, rng, budget, true);
+    } else if (mode == "seq") {
+        run_seq(js, rng, budget);
     } else if (mode == "peakloc") {
         run_peakloc(js, rng, budget);
     } else if (mode == "detector") {
